@@ -3,10 +3,12 @@
 // input    = (names ops keys)
 //
 //	names = table of distinct member names (byte strings)
-//	ops   = ((0 i) AddNode(names[i]) | (1 i) RemoveNode(names[i])) ...
+//	ops   = ((0 i) AddNode(names[i]) | (1 i) RemoveNode(names[i])) ... each followed by lookups of
+//	        every key; (2 i) / (3 i) = the same calls with NO lookup afterwards (quiet op)
 //	keys  = byte strings
 //
-// observed = one entry per op, taken after the op: ((r_1 .. r_k) repeat_equal cache_len cache_ok)
+// observed = one entry per op, taken after the op: ((r_1 .. r_k) repeat_equal cache_len cache_ok);
+// () for a quiet op
 //
 //	r_j = index in names of GetNodeBy(key_j); -1 the call panicked (empty ring);
 //	-2 a string that is not in the table; -3 the op itself panicked.
@@ -85,12 +87,18 @@ func play(h history) (res [][]int64, rep []bool, cache [][2]int64) {
 	for _, o := range h.ops {
 		n := h.names[o[1]]
 		p, _ := Catch(func() {
-			if o[0] == 0 {
+			if o[0] == 0 || o[0] == 2 {
 				c.AddNode(n)
 			} else {
 				c.RemoveNode(n)
 			}
 		})
+		if o[0] >= 2 && !p { // quiet: nothing is looked up, nothing is probed
+			res = append(res, nil)
+			rep = append(rep, true)
+			cache = append(cache, [2]int64{-1, 1})
+			continue
+		}
 		cur := make([]int64, len(h.keys))
 		same := true
 		if p {
@@ -122,6 +130,10 @@ func play(h history) (res [][]int64, rep []bool, cache [][2]int64) {
 func obsSx(res [][]int64, rep []bool, cache [][2]int64) Sx {
 	obs := make([]Sx, len(res))
 	for i := range res {
+		if res[i] == nil && cache[i][0] < 0 {
+			obs[i] = List()
+			continue
+		}
 		obs[i] = List(Ints(res[i]...), Bool(rep[i]), Int(cache[i][0]), Int(cache[i][1]))
 	}
 	return ListOf(obs)
@@ -141,15 +153,21 @@ func holds(h history, res [][]int64, rep []bool) (int, []int) {
 	for j := range prev {
 		prev[j] = -1
 	}
+	added, removed, noop := map[int64]bool{}, map[int64]bool{}, true
 	for t, o := range h.ops {
 		x := o[1]
 		was := members[x]
-		unchanged := was
-		if o[0] == 0 {
+		if o[0] == 0 || o[0] == 2 {
 			members[x] = true
+			added[int64(x)] = true
+			noop = noop && was
 		} else {
 			delete(members, x)
-			unchanged = !was
+			removed[int64(x)] = true
+			noop = noop && !was
+		}
+		if o[0] >= 2 {
+			continue
 		}
 		cur := res[t]
 		var bad [5][]int
@@ -157,14 +175,15 @@ func holds(h history, res [][]int64, rep []bool) (int, []int) {
 			if len(members) > 0 && (cur[j] < 0 || !members[int(cur[j])]) {
 				bad[1] = append(bad[1], j)
 			}
-			if unchanged && cur[j] != prev[j] {
+			if noop && cur[j] != prev[j] {
 				bad[2] = append(bad[2], j)
 			}
-			if o[0] == 0 && cur[j] != prev[j] && cur[j] != int64(x) {
-				bad[3] = append(bad[3], j)
-			}
-			if o[0] == 1 && prev[j] != int64(x) && cur[j] != prev[j] {
-				bad[4] = append(bad[4], j)
+			if cur[j] != prev[j] && !added[cur[j]] && !removed[prev[j]] {
+				if len(removed) == 0 {
+					bad[3] = append(bad[3], j)
+				} else {
+					bad[4] = append(bad[4], j)
+				}
 			}
 		}
 		if !rep[t] {
@@ -176,6 +195,7 @@ func holds(h history, res [][]int64, rep []bool) (int, []int) {
 			}
 		}
 		prev = cur
+		added, removed, noop = map[int64]bool{}, map[int64]bool{}, true
 	}
 	return 0, nil
 }
@@ -226,6 +246,72 @@ func findCollisions(prefix string, nnames, want int) []collision {
 			} else {
 				seen[hv] = ent{int32(k), int32(i)}
 			}
+		}
+	}
+	return res
+}
+
+// keys whose FNV-1a hash is an extreme value of the hash domain or sits next to a ring point of
+// the members "bnd-a" / "bnd-b" (found by brute force; verified at run time, so the table
+// cannot rot: an entry whose hash is not the recorded one is dropped and reported)
+var boundaryKeys = []struct {
+	key  string
+	hash uint32
+}{
+	{"user:apoxq43", 0}, {"user:bo7us0x", 0}, {"user:dn6xl6f", 0},
+	{"user:42rynyi", 1},
+	{"user:70y3eq4", 4294967295},
+	{"user:c16yzsl", 4294967294}, {"user:73zs70d", 4294967294},
+	{"user:215isog", 1301769438}, // bnd-a point 1301769437 plus 1
+	{"user:215ison", 1184326105}, // bnd-a point 1184326104 plus 1
+	{"user:01hfg3q", 2109776594}, // bnd-b point 2109776593 plus 1
+	{"user:a34r9im", 1529470639}, // bnd-b point 1529470640 minus 1
+	{"user:a37brub", 1301769438}, // bnd-a point 1301769437 plus 1
+	{"user:a37bruk", 1184326105}, // bnd-a point 1184326104 plus 1
+	{"user:72jdjpi", 1975555640}, // bnd-b point 1975555641 minus 1
+	{"user:72jdjpq", 2109776592}, // bnd-b point 2109776593 minus 1
+	{"user:14b5jzb", 2109776594}, // bnd-b point 2109776593 plus 1
+	{"user:83e3bd4", 89217557},   // bnd-a point 89217558 minus 1
+	{"user:c4tnndr", 4294967295}, // max
+	{"user:f66ssnk", 1529470639}, // bnd-b point 1529470640 minus 1
+	{"user:27wd938", 2109776592}, // bnd-b point 2109776593 minus 1
+	{"user:58min3y", 89217559},   // bnd-a point 89217558 plus 1
+	{"user:09ja02o", 89217557},   // bnd-a point 89217558 minus 1
+	{"user:5a9oo00", 1184326103}, // bnd-a point 1184326104 minus 1
+	{"user:6b5k0z6", 1301769436}, // bnd-a point 1301769437 minus 1
+	{"user:aag6pbn", 1},          // one
+	{"user:4cblwpd", 1975555640}, // bnd-b point 1975555641 minus 1
+	{"user:4dhy0qu", 89217559},   // bnd-a point 89217558 plus 1
+	{"user:9dlmrt2", 1975555642}, // bnd-b point 1975555641 plus 1
+	{"user:9dmdynf", 1184326103}, // bnd-a point 1184326104 minus 1
+	{"user:9fg0jcd", 1529470641}, // bnd-b point 1529470640 plus 1
+	{"user:femvj1k", 0},          // zero
+	{"user:9iy8n82", 1529470641}, // bnd-b point 1529470640 plus 1
+	{"user:4jn6m8s", 0},          // zero
+	{"user:7jb00mn", 1975555642}, // bnd-b point 1975555641 plus 1
+	{"user:3lv5064", 1301769436}, // bnd-a point 1301769437 minus 1
+}
+
+func verifiedBoundaryKeys(out *Out) []string {
+	var ks []string
+	for _, e := range boundaryKeys {
+		if fnv32(e.key) == e.hash {
+			ks = append(ks, e.key)
+		} else if out != nil {
+			out.Note("boundary key %q no longer hashes to %d", e.key, e.hash)
+		}
+	}
+	return ks
+}
+
+// quietize turns each op after the first into a quiet one with probability num/den; the last
+// op is always observed
+func quietize(rng *Rng, ops [][2]int, num, den int) [][2]int {
+	res := make([][2]int, len(ops))
+	for i, o := range ops {
+		res[i] = o
+		if i > 0 && i < len(ops)-1 && rng.Chance(num, den) {
+			res[i][0] = o[0] + 2
 		}
 	}
 	return res
@@ -324,7 +410,7 @@ func gen(a Args, out *Out) {
 		out.Case(kind, len(h.ops) >= 2, h.sx(), obsSx(res, rep, cache))
 		out.Count(fmt.Sprintf("ops:%02d-%02d", len(h.ops)/5*5, len(h.ops)/5*5+4))
 		for _, o := range h.ops {
-			out.Count([]string{"op:add", "op:remove"}[o[0]])
+			out.Count([]string{"op:add", "op:remove", "op:add-quiet", "op:remove-quiet"}[o[0]])
 		}
 		// (b) the same history with a dense key sample: the property itself, in Go
 		d := history{names: h.names, ops: h.ops, keys: append(append([]string{}, h.keys...), randKeys(rng.Fork(), nDense, h.names)...)}
@@ -370,7 +456,12 @@ func gen(a Args, out *Out) {
 		}
 		h := history{names: names, ops: randOps(rng, len(names), rng.Range(1, 24), 12), keys: randKeys(rng, nKeys, names)}
 		out.Count(fmt.Sprintf("names:class%d", class))
-		emit("random", h)
+		if n%3 == 0 { // lookups only now and then: runs of calls with no lookup in between
+			h.ops = quietize(rng, h.ops, rng.Range(1, 3), 4)
+			emit("random-quiet", h)
+		} else {
+			emit("random", h)
+		}
 	}
 
 	// 2. members whose replica points collide under FNV-1a (birthday search, seeded prefix)
@@ -393,13 +484,15 @@ func gen(a Args, out *Out) {
 			names = append(names, fmt.Sprintf("%s_z%d", prefix, z))
 		}
 		var ops [][2]int
-		switch ci % 4 {
+		switch ci % 5 {
 		case 0: // X, Y collide; bystanders; remove X
 			ops = [][2]int{{0, 2}, {0, 3}, {0, 0}, {0, 4}, {0, 1}, {0, 5}, {1, 0}, {1, 1}}
 		case 1: // re-adding a member while its colliding partner is present
 			ops = [][2]int{{0, 0}, {0, 2}, {0, 1}, {0, 3}, {0, 0}, {0, 1}, {1, 1}, {0, 1}, {1, 0}}
 		case 2: // removing a non-member whose replica collides with a member's point
 			ops = [][2]int{{0, 2}, {0, 1}, {0, 3}, {0, 4}, {1, 0}, {0, 0}, {1, 1}}
+		case 4: // the late-comer lost the shared point; its partner leaves; adding it again must change nothing
+			ops = [][2]int{{0, 2}, {0, 3}, {0, 0}, {0, 1}, {0, 4}, {0, 5}, {1, 0}, {0, 1}, {1, 1}, {0, 0}}
 		case 3:
 			ops = append([][2]int{{0, 0}, {0, 1}, {0, 2}, {0, 3}}, randOps(rng, len(names), rng.Range(4, 14), 6)...)
 		}
@@ -460,5 +553,78 @@ func gen(a Args, out *Out) {
 		keys = append(keys, randKeys(rng, 24, names)...)
 		out.Count("grow-then-shrink")
 		emit("grow-shrink", history{names: names, ops: ops, keys: keys})
+	}
+
+	// 4. quiet pairs: calls made WITHOUT a lookup in between that leave the number of points
+	// unchanged (add+remove, remove+add), then a lookup; and boundary values of the hash domain
+	// among the keys (hash 0, 1, 2^32-1, a ring point +-1), looked up first after a change
+	bkeys := verifiedBoundaryKeys(out)
+	out.CountN("boundary-keys", len(bkeys))
+	nQuiet := 30
+	if a.Thorough() {
+		nQuiet = 400
+	}
+	for q := 0; q < nQuiet; q++ {
+		names := []string{"bnd-a", "bnd-b"}
+		for z := rng.Range(2, 8); z > 0; z-- {
+			names = append(names, fmt.Sprintf("q%d_%d", q, z))
+		}
+		in := map[int]bool{}
+		var ops [][2]int
+		for i := 0; i < len(names); i++ { // observed adds of about half of the names
+			if rng.Bool() || i == q%2 {
+				ops = append(ops, [2]int{0, i})
+				in[i] = true
+			}
+		}
+		pick := func(member bool) int {
+			var c []int
+			for i := range names {
+				if in[i] == member {
+					c = append(c, i)
+				}
+			}
+			if len(c) == 0 {
+				return -1
+			}
+			return c[rng.Intn(len(c))]
+		}
+		for b := rng.Range(3, 10); b > 0; b-- {
+			x, y := pick(false), pick(true)
+			if x < 0 || y < 0 {
+				break
+			}
+			switch rng.Intn(5) {
+			case 0: // quiet add, observed remove
+				ops = append(ops, [2]int{2, x}, [2]int{1, y})
+			case 1: // quiet remove, observed add
+				ops = append(ops, [2]int{3, y}, [2]int{0, x})
+			case 2: // both quiet, then an observed no-op
+				ops = append(ops, [2]int{2, x}, [2]int{3, y}, [2]int{0, x})
+			case 3: // swap and swap back without looking, observed re-add
+				ops = append(ops, [2]int{2, x}, [2]int{3, y}, [2]int{2, y}, [2]int{3, x}, [2]int{0, y})
+				x, y = y, x
+			case 4: // plain observed pair
+				ops = append(ops, [2]int{0, x}, [2]int{1, y})
+			}
+			in[x], in[y] = true, false
+		}
+		keys := append([]string{}, bkeys...)
+		for _, n := range names[:2] { // the members' own replica strings: hash = a ring point
+			keys = append(keys, fmt.Sprintf("%s-%d", n, rng.Intn(consistent.ReplicaCount)))
+		}
+		keys = append(keys, randKeys(rng, 40, names)...)
+		switch q % 3 {
+		case 1: // boundary keys last: the reverse round then ends, and the next round starts, elsewhere
+			for i, j := 0, len(keys)-1; i < j; i, j = i+1, j-1 {
+				keys[i], keys[j] = keys[j], keys[i]
+			}
+		case 2:
+			for i := len(keys) - 1; i > 0; i-- {
+				j := rng.Intn(i + 1)
+				keys[i], keys[j] = keys[j], keys[i]
+			}
+		}
+		emit("quiet-boundary", history{names: names, ops: ops, keys: keys})
 	}
 }
